@@ -160,7 +160,7 @@ func c09Child(c *mon.Child) {
 			text := gram.Render(g.Profile, toks, ii%5, r.Fork("render", h.ID, ii))
 			var L []lexer.Token
 			mon.Guard(func() { L, _ = fresh.Lex("", strings.NewReader(text)) })
-			if L == nil || !affordable(c, gp, L) {
+			if L == nil || !affordableK(c, gp, L, []int{[]int{1, 3, participle.MaxLookahead}[gi%3]}) {
 				continue
 			}
 			obj := "parser:" + h.ID
